@@ -186,6 +186,15 @@ def judge(case):
             viol.append(V('C18|not-idempotent|after-other-code', 'analysing the code again after another program attached %d more '
                                                                  'feedback objects / changed the issues'
                           % (len(report.feedback) + len(report.ignored_feedback) - n_mid)))
+        # the same program further down in its text (leading blank lines) is another text: its issues are on its own lines
+        pad = 3
+        r7 = tifa_analysis('\n' * pad + code)
+        moved = {label: sorted(((name, (line + pad) if line is not None else None) for name, line in items), key=repr) for label, items in i1.items()}
+        if r7.success == r1.success and issues_of(r7) != moved:
+            got7 = issues_of(r7)
+            label = next((l for l in set(got7) | set(moved) if got7.get(l) != moved.get(l)), '?')
+            viol.append(V('C18|padded-text-answered-from-another-text|%s' % label, 'the program behind %d blank lines, analysed on the report that analysed it without them, gives %r; expected %r'
+                          % (pad, got7.get(label), moved.get(label))))
     except BaseException as e:
         viol.append(V('C18|raises-on-repeat:%s' % type(e).__name__, 'second tifa_analysis raised %r' % e))
     try:
